@@ -348,30 +348,18 @@ Definition spopCommand (args : list bytes) (f : fact) : lres :=
          | _ => propose_first args
          end
        end.
-(* saddCommand: for each member in order: CheckKeySubKey(cut key, m) else error; first non-member => propose *)
-Fixpoint sadd_loop (key : bytes) (ms : list bytes) (bits : list bool) : option bool :=
-  (* None = rejected; Some true = need change; Some false = all members present *)
-  match ms with
-  | [] => Some false
-  | m :: rest =>
-    if negb (check_key key && check_subkey m) then None
-    else match bits with
-         | false :: _ => Some true
-         | true :: bits' => sadd_loop key rest bits'
-         | [] => Some true
-         end
-  end.
+(* saddCommand: CheckKeySubKey(cut key, m) for every member, else error; then (behind the read-index
+   barrier isLocalStoreCurrent, assumed to succeed) any member that is not in the set => propose *)
 Definition saddCommand (args : list bytes) (f : fact) : lres :=
   if Nat.ltb (alen args) 3 then LRej
   else match cut_ns (arg args 1) with
        | None => LRej
        | Some key =>
-         let bits := match f with FBits l => l | _ => [] end in
-         match sadd_loop key (skipn 2 args) bits with
-         | None => LRej
-         | Some true => propose_first args
-         | Some false => LLocalOk
-         end
+         if negb (forallb (fun m => check_key key && check_subkey m) (skipn 2 args)) then LRej
+         else match f with
+              | FBits l => if forallb (fun b => b) l then LLocalOk else propose_first args
+              | _ => propose_first args
+              end
        end.
 Definition sremCommand (args : list bytes) (f : fact) : lres :=
   if Nat.ltb (alen args) 3 then LRej
@@ -480,7 +468,7 @@ Definition merge_write (ns : bytes) (wrap : gname) (name : bytes) (args : list b
          else if gname_eqb wrap "wrapWriteMergeCommandKK" then
            let keys := skipn 1 args in
            if negb (all_keys_in_ns ns keys) then LRej
-           else if max_batch_num <? N.of_nat (length keys) then LLocalOk   (* handler error is dropped from the sum *)
+           else if max_batch_num <? N.of_nat (length keys) then LRej      (* errTooMuchBatchSize of the handler is reported *)
            else LProp name (name :: cut_all keys)
          else if gname_eqb wrap "wrapWriteMergeCommandKVKV" then
            let kvs := plset_pairs (skipn 1 args) in
